@@ -1391,6 +1391,35 @@ impl Machine {
         }
     }
 
+    /// The number of clauses at the front of a `DynamicIndexedChoice` line that were born at or
+    /// after `cc`. These are exactly the clauses `asserta` has pushed onto the front of the line
+    /// since the running call captured `cc` (everything behind an older clause was already in
+    /// the line then). A choice point keeps its position in the line relative to them.
+    pub(super) fn dynamic_line_front_growth(&self, oi: u32) -> u32 {
+        let p = self.machine_st.p;
+
+        let indexed_choice_instrs = match &self.code[p] {
+            Instruction::IndexingCode(indexing_code) => match &indexing_code[oi as usize] {
+                IndexingLine::DynamicIndexedChoice(indexed_choice_instrs) => indexed_choice_instrs,
+                _ => unreachable!(),
+            },
+            _ => unreachable!(),
+        };
+
+        let mut k = 0;
+
+        for &offset in indexed_choice_instrs.iter() {
+            match &self.code[p + offset - 1] {
+                &Instruction::DynamicInternalElse(birth, ..) if birth >= self.machine_st.cc => {
+                    k += 1;
+                }
+                _ => break,
+            }
+        }
+
+        k
+    }
+
     pub(super) fn find_living_dynamic(
         &self,
         oi: u32,
@@ -3719,9 +3748,14 @@ impl Machine {
 
                                 let p = self.machine_st.p;
 
-                                match self
-                                    .find_living_dynamic(self.machine_st.oip, self.machine_st.iip)
-                                {
+                                // iip and biip count from the first clause that was in the
+                                // line when the call began.
+                                let k = self.dynamic_line_front_growth(self.machine_st.oip);
+
+                                match self.find_living_dynamic(
+                                    self.machine_st.oip,
+                                    self.machine_st.iip + k,
+                                ) {
                                     Some((offset, oi, ii, is_next_clause)) => {
                                         self.machine_st.p = p;
                                         self.machine_st.oip = oi;
@@ -3751,12 +3785,22 @@ impl Machine {
                                                         );
 
                                                         self.machine_st.num_of_args += 1;
+                                                        let b = self.machine_st.b;
                                                         backtrack_on_resource_error!(
                                                             self.machine_st,
                                                             self.indexed_try(offset),
                                                             continue
                                                         );
                                                         self.machine_st.num_of_args -= 1;
+
+                                                        if self.machine_st.b != b {
+                                                            let b = self.machine_st.b;
+                                                            self.machine_st
+                                                                .stack
+                                                                .index_or_frame_mut(b)
+                                                                .prelude
+                                                                .biip -= k;
+                                                        }
                                                     }
                                                     None => {
                                                         self.machine_st.p = p + offset;
@@ -3793,6 +3837,15 @@ impl Machine {
                                                         // this is true iff ii + 1 < len.
                                                         Some(_) => {
                                                             self.retry(offset);
+
+                                                            if self.machine_st.b == b {
+                                                                self.machine_st
+                                                                    .stack
+                                                                    .index_or_frame_mut(b)
+                                                                    .prelude
+                                                                    .biip -= k;
+                                                            }
+
                                                             increment_call_count!(self.machine_st);
                                                         }
                                                         _ => {
